@@ -1,299 +1,240 @@
 """C11 Messages pushed concurrently reach the socket whole and in order.
 
-Engine S on the REAL cassandra.io.asyncioreactor.AsyncioConnection (only _connect_socket is
-replaced, by a fake socket) over a virtual asyncio event loop: the loop is one virtual thread that
-runs one ready handle per step, pusher threads call push() concurrently, sock_sendall completes at
-once or one loop turn later (data choice).  All schedules within the preemption bound.
+Engine S on the two event-loop reactors that can be imported on this interpreter, each run as the REAL
+connection class over a virtual event loop (vt/c11lib.py):
+
+* cassandra.io.asyncioreactor.AsyncioConnection (only `_connect_socket` replaced) on a selector-less
+  asyncio.BaseEventLoop: the loop is one virtual thread whose step is one whole ready handle; push,
+  _push_msg and handle_write are additionally preemptible at every source line; `sock_sendall` answering
+  "at once" or "one loop turn later" is an explored environment choice.
+* cassandra.io.twistedreactor.TwistedConnection on a virtual reactor (callFromThread = append + scheduling
+  point) with twisted's own transport write buffer over a fake socket that may take only part of a write.
+
+2-3 pusher threads x 1-2 messages each, optionally more messages pushed from the loop thread itself, sizes
+around out_buffer_size (lowered to 8): every schedule within the preemption bound is executed and the bytes
+the fake socket received are judged by an independent oracle on tagged messages.
 """
-import asyncio
 import itertools
-import logging
-from asyncio import events
 
-from vt import sched, vthreading
-from vt.world import vworld       # noqa: F401
-from vt.core import Part
-
-import cassandra.connection as conn_mod
-import cassandra.io.asyncioreactor as ar
+from vt import c11lib, sched
+from vt.core import HarnessError, Part
 
 META = {
     'level': 'model_checking',
     'engine': 'S',
-    'technique': 'stateless schedule exploration (preemption-bounded) of pusher threads against a virtual asyncio loop running the real AsyncioConnection coroutines',
-    'text': 'Real AsyncioConnection (push, _push_msg, handle_write, asyncio.Queue/Lock/Task machinery of the stdlib) with '
-            'out_buffer_size lowered to 8: 2 pusher threads (thorough: 3) x 1-2 messages each with sizes from {1, 7, 8, 9, 17}, plus a '
-            'variant pushing from the loop thread itself; scheduling points at every line of push(), at every loop turn and at '
-            'every call_soon_threadsafe; sock_sendall finishing immediately or one turn later is an explored environment answer.  '
-            'Oracle: bytes handed to the socket = the handshake OPTIONS frame followed by every pushed message exactly once, each '
-            'contiguous, in an order consistent with each thread\'s push order.',
-    'note': 'The event loop is asyncio.BaseEventLoop with time/_process_events/_write_to_self/sock_* replaced; Task, Queue, Lock, '
-            'run_coroutine_threadsafe are the stock ones.  Only the asyncio reactor is exercised here (twisted writes each message with '
-            'one callFromThread(transport.write, data), which cannot split a message).',
+    'technique': 'stateless schedule exploration (CHESS preemption bounding, complete within the bound) of pusher threads against '
+                 'a virtual event-loop thread running the real AsyncioConnection / TwistedConnection write path',
+    'text': 'Real AsyncioConnection (push, _push_msg, handle_write and the stock asyncio Task/Queue/Lock/run_coroutine_threadsafe) and '
+            'real TwistedConnection (push, connection set-up through twisted endpoints, twisted FileDescriptor write buffer) with '
+            'out_buffer_size=8; messages carry (owner, offset) in every byte.  Quick: every ordered pair of sizes from {1,7,8,9,17} '
+            'pushed by 2 threads (asyncio: all schedules with <=1 preemption and <=1 delayed sock_sendall, <=2 preemptions for the '
+            'smallest configuration; twisted: <=2 preemptions, <=1 short socket write), plus 2 messages per thread, 1-2 pushes from '
+            'the loop thread itself (create_task branch) arriving at any moment, pushers starting while the connection\'s watcher '
+            'coroutines and OPTIONS push are still queued, and 3 pusher threads.  Thorough: <=2 preemptions for every size pair, <=2 '
+            'delayed sendalls, 3 pushers over {1,9,17}^3, 2x2 messages, loop-thread pushes and cold starts over {1,9,17}^2; twisted <=3 '
+            'preemptions for every pair.  Scheduling points: every source line of push/_push_msg/handle_write in whichever thread '
+            'runs it, every loop turn (one ready handle), every call_soon_threadsafe/callFromThread.  Oracle: the bytes the fake '
+            'socket received are a concatenation of the pushed messages, each whole, each exactly once, in an order consistent with '
+            'every thread\'s push order, judged when the loop is idle and all threads are done.',
+    'note': 'Trusted: asyncio.BaseEventLoop with time/_process_events/_write_to_self/sock_sendall/sock_recv replaced (no selector; '
+            'ready handles run FIFO one per step, as _run_once does); twisted reactor replaced by an object implementing '
+            'callFromThread/connectTCP/addWriter/removeWriter with mainLoop\'s order (queued thread calls, then doWrite); line '
+            'granularity of preemption (DESIGN 3.1); a delayed sock_sendall is modelled as nothing accepted now and everything one loop '
+            'turn later.  asyncore and libev reactors cannot be imported on this interpreter; gevent/eventlet are not event-loop '
+            'reactors in the sense of the statement and are not installed.',
     'design_ref': 'C11',
 }
 
-logging.getLogger('asyncio').setLevel(logging.CRITICAL)
+S = c11lib.SIZES            # (1, 7, 8, 9, 17)
 
 
-class FakeSocket(object):
-    def __init__(self):
-        self.sent = []
-
-    def setblocking(self, b):
-        pass
-
-    def fileno(self):
-        return 99
-
-    def close(self):
-        pass
-
-
-class VLoop(asyncio.BaseEventLoop):
-    def __init__(self, s):
-        asyncio.BaseEventLoop.__init__(self)
-        self._vs = s
-        self._vtime = 0.0
-
-    def time(self):
-        return self._vtime
-
-    def _process_events(self, event_list):
-        pass
-
-    def _write_to_self(self):
-        self._vs.point('call_soon_threadsafe')
-
-    async def sock_sendall(self, sock, data):
-        if self._vs.choose(2, 'sendall-later'):
-            await asyncio.sleep(0)
-        sock.sent.append(bytes(data))
-
-    async def sock_recv(self, sock, n):
-        return await self.create_future()      # the server stays silent
-
-    def remove_reader(self, fd):
-        pass
-
-    def remove_writer(self, fd):
-        pass
-
-
-class LoopThreadStub(object):
-    ident = None
-
-
-class VAsyncioConnection(ar.AsyncioConnection):
-    out_buffer_size = 8
-
-    def _connect_socket(self):
-        self._socket = FakeSocket()
-
-
-FOCUS = [ar.AsyncioConnection.push.__code__]
-
-
-def _dispose(loop):
-    """Cancel what is still pending (the read/write watchers wait for ever) and let the
-    cancellations run, so that nothing is left for the garbage collector to complain about."""
-    loop._vs = _NoSched()
-    events._set_running_loop(loop)
-    try:
-        for task in asyncio.all_tasks(loop):
-            task.cancel()
-        guard = 0
-        while loop._ready and guard < 1000:
-            h = loop._ready.popleft()
-            if not h._cancelled:
-                h._run()
-            guard += 1
-    except Exception:
-        pass
-    finally:
-        events._set_running_loop(None)
-        try:
-            loop.close()
-        except Exception:
-            pass
-
-
-class _NoSched(object):
-    def point(self, *a):
-        pass
-
-    def choose(self, n, label='', cost=0):
-        return 0
-
-
-def harness(params, prefix, part):
-    s = sched.Scheduler(prefix, focus=FOCUS, horizon=6000)
-    loop = VLoop(s)
-    stub = LoopThreadStub()
-    saved = (ar.AsyncioConnection._loop, ar.AsyncioConnection._loop_thread,
-             conn_mod.RLock, conn_mod.Event, conn_mod.Condition)
-    ar.AsyncioConnection._loop = loop
-    ar.AsyncioConnection._loop_thread = stub
-    VAsyncioConnection._loop, VAsyncioConnection._loop_thread = loop, stub
-    conn_mod.RLock, conn_mod.Event, conn_mod.Condition = vthreading.VRLock, vthreading.VEvent, vthreading.VCondition
-    msgs = params['msgs']          # list per thread of message sizes
-    payload = {}
-    k = 0
-    for ti, sizes in enumerate(msgs):
-        for mi, n in enumerate(sizes):
-            payload[(ti, mi)] = bytes([65 + k]) * n
-            k += 1
-    state = {'done': 0}
-    c = None
-    try:
-        c = VAsyncioConnection('10.0.0.1', protocol_version=4)
-        handshake = b''.join(c._v_first) if hasattr(c, '_v_first') else None
-
-        def pusher(ti):
-            def body():
-                try:
-                    for mi in range(len(msgs[ti])):
-                        c.push(payload[(ti, mi)])
-                finally:
-                    state['done'] += 1
-            return body
-
-        npush = len([m for m in msgs if m])
-        from_loop = params.get('from_loop')
-
-        def loop_body():
-            import threading
-            stub.ident = threading.get_ident()
-            events._set_running_loop(loop)
-            try:
-                if from_loop:
-                    loop.call_soon(c.push, b'L' * from_loop)
-                idle = 0
-                while True:
-                    if loop._ready:
-                        h = loop._ready.popleft()
-                        if not h._cancelled:
-                            h._run()
-                        s.point('loop-turn')
-                    elif state['done'] >= npush:
-                        break
-                    else:
-                        s.block(lambda: bool(loop._ready) or state['done'] >= npush, None, 'loop idle')
-            finally:
-                events._set_running_loop(None)
-
-        s.spawn(loop_body, 'loop')
-        for ti in range(len(msgs)):
-            if msgs[ti]:
-                s.spawn(pusher(ti), 'pusher%d' % ti)
-        s.run()
-    finally:
-        _dispose(loop)
-        (ar.AsyncioConnection._loop, ar.AsyncioConnection._loop_thread,
-         conn_mod.RLock, conn_mod.Event, conn_mod.Condition) = saved
-    data = {'params': params, 'prefix': s.choices()}
-    if s.failure:
-        part.violation('C11/%s' % s.failure[0], s.failure[1], data)
-        return s
-    for t in s.threads:
-        if t.exc is not None:
-            part.violation('C11/thread-exception/%s' % type(t.exc).__name__, '%r in %s' % (t.exc, t.name), data)
-            return s
-    wire_bytes = b''.join(c._socket.sent)
-    expected = list(payload.values()) + ([b'L' * params['from_loop']] if params.get('from_loop') else [])
-    # strip the OPTIONS frame the constructor pushed (9-byte v4 header, empty body)
-    body = wire_bytes
-    opt = None
-    if len(body) >= 9 and body[0] == 0x04 and body[4] == 0x05:
-        opt, body = body[:9], body[9:]
-    part.outcome(('options' if opt else 'no-options', len(body), sum(len(e) for e in expected)))
-    if opt is None:
-        part.violation('C11/handshake-not-written', 'the OPTIONS frame never reached the socket (socket got %r)' % (wire_bytes[:40],), data)
-    # parse body as a sequence of whole messages (each message is a run of one distinct byte)
-    pos = 0
-    seen = []
-    ok = True
-    while pos < len(body):
-        b = body[pos]
-        cand = [m for m in expected if m and m[0] == b]
-        if not cand:
-            ok = False
-            break
-        m = cand[0]
-        if body[pos:pos + len(m)] != m:
-            ok = False
-            break
-        seen.append(m)
-        pos += len(m)
-    if not ok:
-        part.violation('C11/message-split-or-interleaved', 'socket bytes %r are not a concatenation of whole messages %r' % (body, expected), data)
-    else:
-        missing = [m for m in expected if m not in seen]
-        dup = [m for m in seen if seen.count(m) > 1]
-        if missing:
-            part.violation('C11/message-missing', 'messages never written: %r (socket %r)' % (missing, body), data)
-        if dup:
-            part.violation('C11/message-duplicated', 'messages written twice: %r' % (dup,), data)
-        for ti, sizes in enumerate(msgs):
-            idx = [seen.index(payload[(ti, mi)]) for mi in range(len(sizes)) if payload[(ti, mi)] in seen]
-            if idx != sorted(idx):
-                part.violation('C11/thread-order', 'thread %d messages written out of order: %r' % (ti, body), data)
-    if any(p.chosen for p in s.trace):
-        part.mark_nontrivial(repr((params, s.choices())))
-    part.sample({'params': params, 'choices': s.choices(), 'socket': body.decode('latin1')}, limit=1)
-    return s
-
-
-def configs(ctx):
-    sizes = [1, 7, 8, 9, 17]
+def plan(ctx):
+    """[(group, params, preemption bound)] -- every entry is explored completely within its bound."""
     out = []
-    for a, b in itertools.product(sizes, repeat=2):
-        out.append({'msgs': [[a], [b]]})
-    for a in (1, 9, 17):
-        for b in (8, 9):
-            out.append({'msgs': [[a, b], [17]]})
-            out.append({'msgs': [[a], [b]], 'from_loop': 9})
-    if ctx.thorough:
-        for a, b, c in itertools.product((1, 9, 17), repeat=3):
-            out.append({'msgs': [[a], [b], [c]]})
-        for a, b in itertools.product(sizes, repeat=2):
-            out.append({'msgs': [[a, 9], [b, 17]]})
+    pairs = list(itertools.product(S, repeat=2))
+    A = 'asyncio'
+    if ctx.quick:
+        for a, b in pairs:
+            out.append(('asyncio 2x1 all size pairs, bound 1, <=1 delayed sendall',
+                        {'reactor': A, 'msgs': [[a], [b]], 'later': 1}, 1))
+        out.append(('asyncio 2x1 smallest configuration, bound 2, <=1 delayed sendall', {'reactor': A, 'msgs': [[1], [1]], 'later': 1}, 2))
+        for m in ([[9, 1], [17]], [[17, 9], [8, 1]]):
+            out.append(('asyncio 2 messages per thread, bound 1', {'reactor': A, 'msgs': m, 'later': 1}, 1))
+        for m, lp in (([[9]], [17]), ([[1]], [9, 17]), ([[17]], [1, 9])):
+            out.append(('asyncio pushes from the loop thread, bound 1', {'reactor': A, 'msgs': m, 'loop': lp, 'later': 1}, 1))
+        out.append(('asyncio 2 pushers + a push from the loop thread, bound 1, no delayed sendall',
+                    {'reactor': A, 'msgs': [[1], [9]], 'loop': [9], 'later': 0}, 1))
+        for m in ([[9], [17]], [[1], [9]]):
+            out.append(('asyncio cold start (watchers and OPTIONS still queued), bound 1',
+                        {'reactor': A, 'msgs': m, 'later': 1, 'cold': True}, 1))
+        out.append(('asyncio 3 pushers, bound 1, no delayed sendall', {'reactor': A, 'msgs': [[1], [1], [1]], 'later': 0}, 1))
+        out.append(('asyncio 3 pushers, bound 1, no delayed sendall', {'reactor': A, 'msgs': [[9], [1], [17]], 'later': 0}, 1))
+    else:
+        three = (1, 9, 17)
+        for a, b in pairs:
+            out.append(('asyncio 2x1 all size pairs, bound 2, <=1 delayed sendall',
+                        {'reactor': A, 'msgs': [[a], [b]], 'later': 1}, 2))
+            out.append(('asyncio 2x1 all size pairs, bound 1, <=2 delayed sendalls',
+                        {'reactor': A, 'msgs': [[a], [b]], 'later': 2}, 1))
+        for a, b, c in itertools.product(three, repeat=3):
+            out.append(('asyncio 3 pushers {1,9,17}^3, bound 1, no delayed sendall', {'reactor': A, 'msgs': [[a], [b], [c]], 'later': 0}, 1))
+        for m in ([[1], [1], [1]], [[9], [1], [17]], [[17], [17], [9]]):
+            out.append(('asyncio 3 pushers, bound 1, <=1 delayed sendall', {'reactor': A, 'msgs': m, 'later': 1}, 1))
+        for a, b in itertools.product(three, repeat=2):
+            out.append(('asyncio 2x2 messages, bound 1', {'reactor': A, 'msgs': [[a, 9], [b, 17]], 'later': 1}, 1))
+            out.append(('asyncio 2 pushers + a push from the loop thread, bound 1',
+                        {'reactor': A, 'msgs': [[a], [b]], 'loop': [9], 'later': 1}, 1))
+            out.append(('asyncio 1 pusher + 2 pushes from the loop thread, bound 1',
+                        {'reactor': A, 'msgs': [[a]], 'loop': [b, 9], 'later': 1}, 1))
+            out.append(('asyncio cold start (watchers and OPTIONS still queued), bound 1',
+                        {'reactor': A, 'msgs': [[a], [b]], 'later': 1, 'cold': True}, 1))
+        out.append(('asyncio 1 pusher + a push from the loop thread, bound 2', {'reactor': A, 'msgs': [[1]], 'loop': [9], 'later': 1}, 2))
+        out.append(('asyncio 1 pusher + a push from the loop thread, bound 2', {'reactor': A, 'msgs': [[9]], 'loop': [1], 'later': 1}, 2))
+        out.append(('asyncio cold start, bound 2', {'reactor': A, 'msgs': [[1], [1]], 'later': 0, 'cold': True}, 2))
+    if c11lib.TWISTED_ERROR is None:
+        T = 'twisted'
+        if ctx.quick:
+            for a, b in pairs:
+                out.append(('twisted 2x1 all size pairs, bound 2, <=1 short write',
+                            {'reactor': T, 'msgs': [[a], [b]], 'partial': 1}, 2))
+            for m in ([[9, 1], [17]], [[17, 9], [8, 1]]):
+                out.append(('twisted 2 messages per thread, bound 2', {'reactor': T, 'msgs': m, 'partial': 1}, 2))
+            for m, lp in (([[9]], [17]), ([[17]], [1, 9])):
+                out.append(('twisted pushes from the reactor thread, bound 2', {'reactor': T, 'msgs': m, 'loop': lp, 'partial': 1}, 2))
+            out.append(('twisted 2 pushers + pushes from the reactor thread, bound 1',
+                        {'reactor': T, 'msgs': [[1], [9]], 'loop': [17], 'partial': 1}, 1))
+            out.append(('twisted 3 pushers, bound 2, no short write', {'reactor': T, 'msgs': [[9], [1], [17]], 'partial': 0}, 2))
+        else:
+            for a, b in pairs:
+                out.append(('twisted 2x1 all size pairs, bound 3, <=2 short writes',
+                            {'reactor': T, 'msgs': [[a], [b]], 'partial': 2}, 3))
+            for a, b in itertools.product((1, 9, 17), repeat=2):
+                out.append(('twisted 2x2 messages, bound 2', {'reactor': T, 'msgs': [[a, 9], [b, 17]], 'partial': 1}, 2))
+                out.append(('twisted 1 pusher + 2 pushes from the reactor thread, bound 2',
+                            {'reactor': T, 'msgs': [[a]], 'loop': [b, 9], 'partial': 1}, 2))
+                out.append(('twisted 2 pushers + a push from the reactor thread, bound 1',
+                            {'reactor': T, 'msgs': [[a], [b]], 'loop': [9], 'partial': 1}, 1))
+            for a, b, c in itertools.product((1, 9, 17), repeat=3):
+                out.append(('twisted 3 pushers {1,9,17}^3, bound 2', {'reactor': T, 'msgs': [[a], [b], [c]], 'partial': 1}, 2))
     return out
 
 
-def _chunk(args):
-    cfgs, bound = args
+def _short(params):
+    d = '%s %r' % (params['reactor'], params['msgs'])
+    if params.get('loop'):
+        d += '+loop%r' % (params['loop'],)
+    if params.get('cold'):
+        d += ' cold'
+    d += ' later<=%d' % params['later'] if 'later' in params else ' short<=%d' % params.get('partial', 0)
+    return d
+
+
+def _execute(params, prefix, part):
+    before = len(part.violations)
+    s = c11lib.run_any(params, prefix, part)
+    if len(part.violations) > before:
+        # a violation is believed only if the recorded choice list reproduces it in a fresh world
+        again = Part()
+        s2 = c11lib.run_any(params, s.choices(), again)
+        want = sorted(fp for fp, _, _ in part.violations[before:])
+        got = sorted(fp for fp, _, _ in again.violations)
+        if s2.choices() != s.choices() or any(fp not in got for fp in want):
+            raise HarnessError('C11: a violating execution did not replay identically: %r %r: %r then %r' % (
+                params, s.choices(), want, got))
+    part.count('executions')
+    part.count('transitions', s.steps)
+    part.count('choice_points', len(s.trace))
+    return s
+
+
+def _roots(args):
+    """Run the default execution of each configuration; return its one-deviation children."""
     part = Part()
-    for params in cfgs:
-        frontier = [[]]
-        while frontier:
-            nxt = []
-            for prefix in frontier:
-                s = harness(params, prefix, part)
-                part.count('executions')
-                part.count('transitions', s.steps)
-                nxt.extend(k for k, _ in sched.children(s.trace, len(prefix), bound))
-            frontier = nxt
+    kids = []
+    for idx, params, bound in args:
+        s = _execute(params, [], part)
+        part.count('cfg%d' % idx)
+        for k, _ in sched.children(s.trace, 0, bound):
+            kids.append((idx, k))
+    return part, kids
+
+
+def _subtrees(args):
+    """Explore completely the subtree below each given prefix (depth first; a subtree is disjoint from its
+    siblings because children() only deviates after the prefix)."""
+    cfgs, items = args
+    part = Part()
+    for idx, prefix in items:
+        params, bound = cfgs[idx]
+        stack = [prefix]
+        while stack:
+            p = stack.pop()
+            s = _execute(params, p, part)
+            part.count('cfg%d' % idx)
+            stack.extend(k for k, _ in sched.children(s.trace, len(p), bound))
     return part
 
 
 def run(ctx):
-    bound = 1 if ctx.quick else 2
-    cfgs = ctx.rotate(configs(ctx))
-    n = ctx.nproc * 2
-    for part in ctx.pmap(_chunk, [(cfgs[i::n], bound) for i in range(n) if cfgs[i::n]]):
+    if not c11lib.selftest():
+        raise HarnessError('C11 oracle self-test failed')
+    entries = plan(ctx)
+    order = ctx.rotate(list(range(len(entries))))
+    cfgs = dict((i, (entries[i][1], entries[i][2])) for i in order)
+    n = max(1, ctx.nproc)
+    rootjobs = [[(i, entries[i][1], entries[i][2]) for i in order[k::n]] for k in range(n) if order[k::n]]
+    kids = []
+    for part, ks in ctx.pmap(_roots, rootjobs):
         ctx.merge(part)
+        kids.extend(ks)
+    # deal the subtrees round-robin, the ones of bound-2 configurations (the big ones) first
+    kids.sort(key=lambda k: (-cfgs[k[0]][1], order.index(k[0])))
+    nchunks = max(1, n * 12)
+    jobs = [(cfgs, kids[k::nchunks]) for k in range(nchunks) if kids[k::nchunks]]
+    samples = {}
+    for part in ctx.pmap(_subtrees, jobs):
+        for x in part.samples:
+            samples.setdefault(tuple(x.pop('kind')), x)
+        del part.samples[:]
+        ctx.merge(part)
+    by_reactor = {}
+    for key in sorted(samples, key=lambda k: (not k[4], not k[1], not k[2], k[3])):     # one per kind of configuration
+        by_reactor.setdefault(key[0], []).append(samples[key])
+    for xs in itertools.zip_longest(*[by_reactor[r] for r in sorted(by_reactor)]):
+        for x in xs:
+            if x is not None:
+                ctx.sample(x, limit=6)
+    per_group, per_cfg = {}, []
+    for i, (group, params, bound) in enumerate(entries):
+        g = per_group.setdefault(group, {'configurations': 0, 'executions': 0, 'preemption_bound': bound})
+        nexec = ctx.counters.pop('cfg%d' % i, 0)
+        g['configurations'] += 1
+        g['executions'] += nexec
+        per_cfg.append('%s bound %d: %d executions' % (_short(params), bound, nexec))
+    ctx.cov['groups'] = per_group
+    ctx.cov['configurations'] = per_cfg
     ctx.count('states', ctx.counters.get('executions', 0))
-    ctx.cov['preemption_bound'] = bound
-    ctx.cov['rule'] = ('message-size configurations x every schedule within the preemption bound x every sendall-completion script; '
-                       'non-trivial = execution with a non-default choice')
+    ctx.count('distinct_nontrivial', ctx.counters.get('executions_with_overlapping_pushes', 0))
+    ctx.cov['out_buffer_size'] = c11lib.N
+    ctx.cov['rule'] = ('evaluations = executions = distinct (configuration, schedule, environment script) triples, every one within the '
+                       'group\'s preemption bound, all run to quiescence; states = executions (stateless search); non-trivial = '
+                       'execution in which two messages of different threads were in flight together (each push() entered before the '
+                       'other message\'s last byte reached the socket); outcomes = reactor + order of whole messages on the socket')
     ctx.cov['exhaustive'] = True
-    ctx.assume('the asyncio reactor is the event-loop reactor usable on this interpreter besides twisted; asyncore/libev cannot be imported')
+    ctx.assume('line-level atomicity of CPython statements (DESIGN.md 3.1); preemption bounds as listed per group')
+    ctx.assume('a sock_sendall that cannot complete at once completes one loop turn later, whole (no other coroutine of the driver '
+               'writes to the socket); at most 1 (thorough: 2) such answers per execution')
+    ctx.assume('the virtual loops run ready callbacks FIFO like BaseEventLoop._run_once / ReactorBase.runUntilCurrent')
+    if c11lib.TWISTED_ERROR is not None:
+        ctx.assume('twisted reactor NOT covered: cassandra.io.twistedreactor cannot be imported here (%s)' % c11lib.TWISTED_ERROR)
+    else:
+        ctx.assume('twisted: pushes happen on an established connection (push() before connectionMade has no transport and is '
+                   'outside the statement); a short socket write takes half of the buffered bytes, at most 1 (thorough: 2) per execution')
 
 
 def replay(ctx, data):
     part = Part()
-    harness(data['params'], data['prefix'], part)
+    c11lib.run_any(data['params'], data['prefix'], part)
     for fp, what, _ in part.violations:
         print(fp, '::', what)
     return bool(part.violations)
